@@ -80,7 +80,8 @@ THEMES = [
 _TK = {1: ("x", "x"), 2: ("y", "y"), 3: ("interpolation", "inter polation")}
 _TV = {1: ["0 1 2 3 4", "0 1 2 3 5", "0 2 4 6 8", ""], 2: ["0 1 4 9 16", "1 1 2 3 5", "5 4 3 2 1", ""], 3: ["cubic_spline", "cubic_spline", "linear", ""]}
 THEMES.append(
-    Theme("table", {1: "Table-Form:tf", 2: "Tabulation", 3: "Table-Form:tg"},
+    # the header of the second table form is spelled with a blank before its colon
+    Theme("table", {1: "Table-Form:tf", 2: "Tabulation", 3: "Table-Form :tg"},
           {1: _TK, 2: {1: ("nr", "n r"), 2: ("cutoff", "cut off"), 3: ("target", "tar get")}, 3: _TK},
           dict([((s, k), _TV[k]) for s in (1, 3) for k in (1, 2, 3)] + [((2, 1), ["6", "5", "9", ""]), ((2, 2), ["2.0", "4.0", "3.5", ""]), ((2, 3), ["LAMMPS", "GULP", "DL_POLY", ""])]),
           preamble="[Variables]\nshift : 1.5\n\n[Pair]\nA-B : sum(tf, as.constant ${shift})\n",
